@@ -144,6 +144,10 @@ func clunkHandleXattr(cs *connState, t *tclunk) message {
 			if len(ref.pendingXattr.buf) != int(ref.pendingXattr.size) {
 				return linux.EINVAL
 			}
+			// The entry may have been deleted since Txattrcreate checked.
+			if ref.isDeleted() {
+				return linux.EINVAL
+			}
 			if ref.pendingXattr.flags == XattrReplace && ref.pendingXattr.size == 0 {
 				return ref.file.RemoveXattr(ref.pendingXattr.name)
 			}
@@ -534,6 +538,12 @@ func (t *tlink) handle(cs *connState) message {
 
 		// Not allowed on open directories.
 		if ref.opened {
+			return linux.EINVAL
+		}
+
+		// Not through a deleted target either: its File may resolve the
+		// old path to whatever has that name now.
+		if refTarget.isDeleted() {
 			return linux.EINVAL
 		}
 
